@@ -245,12 +245,25 @@ impl PendingSubscriptionSink {
 		//
 		// The same message is sent twice here because one is sent directly to the transport layer and
 		// the other one is sent internally to accept the subscription.
-		self.inner.send(response.to_json()).await.map_err(|_| PendingSubscriptionAcceptError)?;
-		self.subscribe.send(response).map_err(|_| PendingSubscriptionAcceptError)?;
+		//
+		// The subscription is registered before its ID is handed out: the peer may unsubscribe as soon as it
+		// has the response.
+		let (tx, rx) = mpsc::channel(1);
+		if success {
+			self.subscribers.lock().insert(self.uniq_sub.clone(), (self.inner.clone(), rx));
+		}
+		let sent = match self.inner.send(response.to_json()).await {
+			Ok(()) => self.subscribe.send(response).map_err(|_| PendingSubscriptionAcceptError),
+			Err(_) => Err(PendingSubscriptionAcceptError),
+		};
+		if let Err(e) = sent {
+			if success {
+				self.subscribers.lock().remove(&self.uniq_sub);
+			}
+			return Err(e);
+		}
 
 		if success {
-			let (tx, rx) = mpsc::channel(1);
-			self.subscribers.lock().insert(self.uniq_sub.clone(), (self.inner.clone(), rx));
 			let unsubscribe = IsUnsubscribed(tx);
 			let remove_on_drop = RemoveSubscriptionOnDrop {
 				subscribers: self.subscribers,
